@@ -197,7 +197,12 @@ pub fn engine(rep: &mut Report, focus: &str, n: usize, seed: u64, thorough: bool
                 }
                 match focus {
                     "C01" => {
-                        // the specification answers the same question on the AST
+                        // the specification answers the same question on the AST; its model materialises every
+                        // continuation, so searches the engine itself finds expensive are left to the executor models
+                        if bt.text == "fuel" || bt.steps > 300_000 {
+                            rep.count("esfind-skipped-heavy");
+                            continue;
+                        }
                         let first = bt.text.split(' ').next().unwrap_or("").to_string();
                         let cp_start = hay[..start].chars().count();
                         rep.tie(
